@@ -14,6 +14,10 @@
         x<ki,ki,..|->             json_object_object_foreach deleting the current key when listed
         y<ki,ki,..|->             the same in a translation unit compiled as strict ISO C (the portable
                                   definition of the macro in json_object.h)
+        s<ki>,<flags>             self-insertion json_object_object_add / _add_ex (obj, key, obj): must be refused
+                                  (-1) whatever the key's presence, flags and fill level, touching nothing;
+                                  ret = rc:delta refcount(obj):delta refcount(old value)
+        q<ki>                     get_ex / get on NULL and on non-objects (0 / NULL), get_ex with a NULL result pointer
         g<ki>                     every lookup entry point (get_ex, get, lh_table_lookup_ex/_entry/_entry_w_hash)
         any of a/d/g may end in @<off>: the C driver passes a copy of the key text placed <off> bytes
         (0..7) after an 8-aligned base; lookups after each step rotate through all offsets
@@ -73,6 +77,21 @@ let run_ops modeb hash_of gsel0 mk nkeys al t0 ops =
           (match obj_get_ex keq hash (t ()) (int_of_string body) with
            | Some v -> emit (vstr modeb v)
            | None -> emit "-")
+      | 's' ->
+          (* add / add_ex (obj, key, obj): ret = return value : change of obj's refcount : change of
+             the old value's refcount *)
+          (match String.split_on_char ',' body with
+           | [k; f] ->
+               let f = int_of_string f in
+               (match obj_add_self keq hash (t ()) (int_of_string k) (f land 1 <> 0) (f land 2 <> 0) with
+                | IOk t' -> set t'; emit "0:0:0"
+                | IFail -> emit "-1:0:0"
+                | IOut why -> raise (Out (reason why)))
+           | _ -> failwith "s")
+      | 'q' ->
+          (* the documented answers for a NULL object / non-objects, and get_ex with a NULL result pointer *)
+          let f = match obj_get_ex keq hash (t ()) (int_of_string body) with Some _ -> 1 | None -> 0 in
+          emit (Printf.sprintf "0:0:0:%d:-:-:-" f)
       | 'a' when not modeb ->
           (match ints body with
            | [k; v] -> ires (obj_add_ex keq hash al false (t ()) k v false false)
